@@ -21,6 +21,7 @@ type c17ctx struct {
 	r      *core.Report
 	bind   map[*ssa.Parameter]ssa.Value
 	cleans []*ssa.Call
+	argOf  map[*ssa.Call]ssa.Value // the value whose rootedness makes the call's result rooted and dot-free
 }
 
 // sanitized: v derives (through allowed wrappers and module helpers) only from path.Clean results.
@@ -33,7 +34,16 @@ func (c *c17ctx) sanitized(v ssa.Value, depth int) (bool, string) {
 		name := sx.CalleeName(x)
 		if name == "path.Clean" {
 			c.cleans = append(c.cleans, x)
+			c.argOf[x] = x.Call.Args[0]
 			return true, ""
+		}
+		if name == "path.Join" {
+			// path.Join(a, b, …) is Clean(a + "/" + b + …): rooted and dot-free when its first element is rooted
+			if el := variadicElems(x.Call.Args[0]); len(el) >= 1 {
+				c.cleans = append(c.cleans, x)
+				c.argOf[x] = el[0]
+				return true, ""
+			}
 		}
 		if c17Wrappers[name] {
 			return c.sanitized(x.Call.Args[0], depth+1)
@@ -83,6 +93,75 @@ func (c *c17ctx) sanitized(v ssa.Value, depth int) (bool, string) {
 	return false, "derives from " + sx.ValPath(v)
 }
 
+// leadingSlashEdges: the CFG edges on which v is known to start with '/': the true edge of `v[0] == '/'` (false edge
+// of `!=`) and of strings.HasPrefix(v, "/").
+func leadingSlashEdges(fn *ssa.Function, v ssa.Value) map[sx.Edge]bool {
+	out := map[sx.Edge]bool{}
+	sx.Instrs(fn, func(in ssa.Instruction) {
+		switch x := in.(type) {
+		case *ssa.BinOp:
+			if x.Op != token.EQL && x.Op != token.NEQ {
+				return
+			}
+			for _, pr := range [][2]ssa.Value{{x.X, x.Y}, {x.Y, x.X}} {
+				var base, index ssa.Value
+				switch l := pr[0].(type) {
+				case *ssa.Lookup:
+					base, index = l.X, l.Index
+				case *ssa.Index:
+					base, index = l.X, l.Index
+				default:
+					continue
+				}
+				if base != v {
+					continue
+				}
+				if k, ok := sx.ConstInt(index); !ok || k != 0 {
+					continue
+				}
+				if k, ok := sx.ConstInt(pr[1]); !ok || k != '/' {
+					continue
+				}
+				for _, u := range *x.Referrers() {
+					if iff, ok := u.(*ssa.If); ok {
+						idx := 0
+						if x.Op == token.NEQ {
+							idx = 1
+						}
+						out[sx.Edge{From: iff.Block(), Idx: idx}] = true
+					}
+				}
+			}
+		case *ssa.Call:
+			if sx.CalleeName(x) == "strings.HasPrefix" && x.Call.Args[0] == v {
+				if s, ok := sx.ConstString(x.Call.Args[1]); ok && strings.HasPrefix(s, "/") {
+					for _, u := range *x.Referrers() {
+						if iff, ok := u.(*ssa.If); ok {
+							out[sx.Edge{From: iff.Block(), Idx: 0}] = true
+						}
+					}
+				}
+			}
+		}
+	})
+	return out
+}
+
+// rootedAt: v starts with '/' whenever `at` is reached: by its construction (rooted), or because every path to `at`
+// passed a test that established it.
+func rootedAt(p *core.Prog, v ssa.Value, at ssa.Instruction, depth int) (bool, string) {
+	ok, why := rooted(p, v, depth)
+	if ok {
+		return true, ""
+	}
+	if at != nil {
+		if e := leadingSlashEdges(at.Parent(), v); len(e) > 0 && sx.MustPass(at.Parent(), nil, at, sx.Cut{Edges: e}) {
+			return true, ""
+		}
+	}
+	return false, why
+}
+
 // rooted: v starts with '/' on every path reaching `at`.
 func rooted(p *core.Prog, v ssa.Value, depth int) (bool, string) {
 	if depth > 6 {
@@ -114,7 +193,14 @@ func rooted(p *core.Prog, v ssa.Value, depth int) (bool, string) {
 			}
 			// the value arrives unchanged: accepted only over an edge on which e[0] == '/' is known
 			pred := x.Block().Preds[k]
-			if !edgeKnowsLeadingSlash(pred, x.Block(), e) {
+			known := edgeKnowsLeadingSlash(pred, x.Block(), e)
+			if !known {
+				// …or established earlier on every path into that predecessor
+				if ed := leadingSlashEdges(pred.Parent(), e); len(ed) > 0 && sx.MustPass(pred.Parent(), nil, pred.Instrs[len(pred.Instrs)-1], sx.Cut{Edges: ed}) {
+					known = true
+				}
+			}
+			if !known {
 				return false, "value " + sx.ValPath(e) + " reaches path.Clean over the edge from block " + fmt.Sprint(pred.Index) + " where a leading '/' is not established"
 			}
 		}
@@ -181,7 +267,7 @@ func runC17(p *core.Prog, r *core.Report) {
 		r.Fail("C17-R1", "anchor ResolveUrlPath", "-", "function not found")
 		return
 	}
-	ctx := &c17ctx{p: p, r: r, bind: map[*ssa.Parameter]ssa.Value{}}
+	ctx := &c17ctx{p: p, r: r, bind: map[*ssa.Parameter]ssa.Value{}, argOf: map[*ssa.Call]ssa.Value{}}
 	nJoin := 0
 	for i, ret := range sx.Returns(fn) {
 		c := fmt.Sprintf("ResolveUrlPath return #%d", i)
@@ -218,7 +304,7 @@ func runC17(p *core.Prog, r *core.Report) {
 			continue
 		}
 		seen[cl] = true
-		ok, why := rooted(p, cl.Call.Args[0], 0)
+		ok, why := rootedAt(p, ctx.argOf[cl], cl, 0)
 		r.Check(ok, "C17-R2", "argument of path.Clean in "+fnName(cl.Parent())+" is rooted", p.Pos(cl.Pos()), "starts with '/' on every path", why+": path.Clean keeps leading '..' elements of a non-rooted path, the join would climb out of the base")
 	}
 	// p[0] guarded by non-empty test
